@@ -132,6 +132,10 @@ def _variants(desc, cmds, under_test):
                     if mixed is not None and mixed == len(v2) - 1 and len(v2) == 1:
                         continue  # a file with only MPilot-style commands is not an EEMS-2 file
                     yield {"with_new": with_new, "with_out": with_out, "mixed": mixed, "defined": defined}, src, ref
+                    if mixed is None and defined:
+                        # every command written in result form with its EEMS 2.0 name (no bare command in the file): still EEMS 2.0 commands
+                        named = [(r[0], nm, a) for r, (nm, a) in zip(ref, v2)]
+                        yield {"with_new": with_new, "with_out": with_out, "mixed": "result-form-eems2-names", "defined": True}, named, ref
                     if mixed is None and defined and with_new and not with_out:
                         # MPilot-style commands that themselves carry OutFileName / NewFieldName, inside an EEMS-2 file: they are not
                         # EEMS-2 commands, the reference rewriting leaves them untouched
